@@ -59,7 +59,7 @@ CONFIGS = [
     # the decoder on every single structural mutation of valid encodings (C06)
     cfg("decode_q", [["build"], ["elideset", "compressone", "decodewire", "codec"], ["decodewire", "codec"]], nreg=1, maxsize=12, maxt=1,
         inv=("WellFormedInv", "C05RoundTrip"), props=("C06Prop",),
-        shapes="ShUpTo(%s, 5) \\cup NodeSubjectNodes(%s, 9) \\cup Decorated(%s) \\cup Nodes2(%s) \\cup Nodes3(%s) \\cup TkvShapes" % (B3, B2, B1, B2, B2)),
+        shapes="ShUpTo(%s, 5) \\cup NodeSubjectNodes(%s, 9) \\cup Decorated(%s) \\cup Nodes2(%s) \\cup Nodes3(%s) \\cup TkvShapes \\cup BstrShapes" % (B3, B2, B1, B2, B2)),
     cfg("decode_t", [["build"], ["elideset", "compressone", "decodewire", "codec"], ["decodewire2", "codec"]], nreg=1, maxsize=12, maxt=1,
         inv=("WellFormedInv", "C05RoundTrip"), props=("C06Prop",),
         shapes="ShUpTo(%s, 4) \\cup {e \\in Sh(%s, 5) : IsNode(e)} \\cup Nodes2(%s) \\cup TkvShapes" % (B2, B2, B1)),
@@ -82,7 +82,7 @@ CONFIGS = [
     # inclusion proofs (C12)
     cfg("proof_q", [["build"], ["build", "proof"], ["proof", "elideset"], ["confirm"]],
         nreg=2, maxsize=12, maxt=2, inv=("WellFormedInv",), props=("C12Prop",),
-        shapes="ShUpTo(%s, 3) \\cup {e \\in Sh(%s, 5) : IsNode(e)} \\cup Nodes2(%s)" % (B2, B2, B1)),
+        shapes="ShUpTo(%s, 3) \\cup {e \\in Sh(%s, 5) : IsNode(e)} \\cup Nodes2(%s) \\cup WrapNodes(%s)" % (B2, B2, B1, B1)),
     # types and attachments (C19)
     cfg("attach_q", [["build"], ["build", "types", "attach", "badattach"], ["types", "attach", "badattach"], ["obs_types", "obs_attach"]],
         atoms=("a1",), nreg=2, maxsize=30, maxt=1, inv=("WellFormedInv",), props=("C19Prop",),
